@@ -411,18 +411,22 @@ def dh_secret_rules(prog, chk, pid):
         why = "returned value is not ecdh.generate_sharedsecret_bytes() (the fixed-width encoding of the shared x coordinate)"
     if ok:
         pubs = [c for c in calls if c.d["callee"].name.startswith("load_received_public_key") and c.uid < last[0].uid]
-        ok = len(pubs) == 1 and pubs[0].d["callee"].name == "load_received_public_key_der"
+        ok = len(pubs) == 1 and pubs[0].d["callee"].name in ("load_received_public_key_der", "load_received_public_key")
         if ok:
             a = unsnap(pubs[0].d["args"][-1])
+            if pubs[0].d["callee"].name == "load_received_public_key":
+                # the body of load_received_public_key_der written out: load_received_public_key(VerifyingKey.from_der(<DER>)) -- from_der is the validating decoder
+                ok = a.op == "call" and show(a.args[0], 3).rstrip(">").endswith("VerifyingKey.from_der") and len([x for x in a.args[1] if unsnap(x).op != "class"]) == 1 and not a.args[2]
+                a = unsnap([x for x in a.args[1] if unsnap(x).op != "class"][0]) if ok else a
             mc = meth_call(a)
-            ok = mc is not None and mc[1] == "to_der_fmt" and unsnap(mc[0]).op == "param" and unsnap(mc[0]).args[0] == fi.params[1]
+            ok = ok and mc is not None and mc[1] == "to_der_fmt" and unsnap(mc[0]).op == "param" and unsnap(mc[0]).args[0] == fi.params[1]
         why = "peer public key is not loaded by load_received_public_key_der(public_key.to_der_fmt()) (validating loader)"
     if ok:
         privs = [c for c in calls if c.d["callee"].name.startswith("load_private_key") and c.uid < last[0].uid]
         via_ctor = news[0].d["kwargs"].get("private_key")
         src = None
         if len(privs) == 1:
-            src = show(privs[0].d["args"][-1], 4)
+            src = show(privs[0].d["args"][-1], 9)
         elif via_ctor is not None and not privs:
             src = show(via_ctor, 4)
         ok = src is not None and "self.private_key" in src and "public" not in src
